@@ -1,8 +1,8 @@
 // c18f: floating-point clauses of C18. Runs unixutil.ScaledPPMFromFreq, FreqFromScaledPPM
 // and (*clocks.SystemClock).Drift in-process on boundary-dense and random inputs (doubles
 // cross the protocol as bit patterns) for bit-exact comparison with the Lean model
-// (lean/ScionTime/Model/UnixutilFloat.lean over the software double), and evaluates the
-// bounds proved in Props/C18Float.lean directly on the real functions with math/big.
+// (lean/ScionTime/Model/F64P_UnixutilFloat.lean over the software double), and evaluates the
+// bounds proved in Props/F64P_C18Float.lean directly on the real functions with math/big.
 package main
 
 import (
@@ -61,7 +61,7 @@ func exec(t []string) (res string) {
 	case len(t) == 2 && t[0] == "uxf.rtf":
 		return "ok " + bits(unixutil.FreqFromScaledPPM(unixutil.ScaledPPMFromFreq(pf(t[1]))))
 	case len(t) == 3 && t[0] == "uxf.drift":
-		return fmt.Sprintf("ok %d", int64(clocks.VerifDrift(pf(t[1]), time.Duration(pi(t[2])))))
+		return fmt.Sprintf("ok %d", int64(clocks.VerifF64PDrift(pf(t[1]), time.Duration(pi(t[2])))))
 	case len(t) == 3 && t[0] == "uxf.driftd":
 		c := clocks.NewSystemClock(nil, time.Duration(pi(t[1])))
 		return fmt.Sprintf("ok %d", int64(c.Drift(time.Duration(pi(t[2])))))
